@@ -92,6 +92,12 @@ func NewHTTPResponse(statusCode int, header http.Header, encoding string, data [
 	case "":
 		resp.RawBody = data
 	default:
+		// 无响应体（如HEAD请求的响应）无需解压，空数据并非合法的压缩数据（snappy解压会出错）
+		if len(data) == 0 {
+			header.Del(elton.HeaderContentEncoding)
+			resp.RawBody = data
+			break
+		}
 		// 取默认的compress来解压
 		compressSrv := compress.Get("")
 		data, err := compressSrv.Decompress(encoding, data)
